@@ -4,6 +4,8 @@
 (* rule/peek/req_end/upd_begin/upd_end/setmodel/query/quiesce).              *)
 EXTENDS Pool, Json
 
+CONSTANT CheckLocks   \* TRUE: the hooks' TryLock bits must show the guarding lock held (C19)
+
 VARIABLE l
 Trace == ndJsonDeserialize("trace.ndjson")
 Ev == Trace[l]
@@ -18,12 +20,12 @@ TraceInit == EmptyPool /\ l = 1
 TSession  == IsEvent("session") /\ UNCHANGED pvars
 TNew      == IsEvent("pnew") /\ PNewCore(Ev.min, Ev.max, Ev.rules, Ev.model)
 TArrive   == IsEvent("arrive") /\ ArriveCore(Ev.q, Rng(Ev.keys), Ev.names, Ev.fail)
-TPop      == IsEvent("pop") /\ PopCore(Ev.q, Ev.i, Ev.len)
+TPop      == IsEvent("pop") /\ (CheckLocks => Ev.locked = 1) /\ PopCore(Ev.q, Ev.i, Ev.len)
 TSpin     == IsEvent("spin") /\ SpinCore
 TPeek     == IsEvent("peek") /\ PeekCore(Ev.q, Ev.key, Ev.val)
 TRule     == IsEvent("rule") /\ RuleRunCore(Ev.q, Ev.r, Ev.tag)
 TReturn   == IsEvent("req_end") /\ ReturnCore(Ev.q, Ev.err, Ev.vals, Ev.cv)
-TPush     == IsEvent("push") /\ PushCore(Ev.i, Ev.len)
+TPush     == IsEvent("push") /\ (CheckLocks => Ev.locked = 1) /\ PushCore(Ev.i, Ev.len)
 TQuiesce  == IsEvent("quiesce") /\ QuiesceCore
 TFrozen   == IsEvent("frozen") /\ FrozenCore(Ev.q, Ev.same)
 TUpdBegin == IsEvent("upd_begin") /\ UpdBeginCore(Ev.kind, Ev.rules, Ev.names)
